@@ -485,6 +485,7 @@ impl StrandDivergenceFootprint {
     pub fn extend_patch(&mut self, patch: &crate::worldline::WorldlineTickPatchV1) {
         self.read_slots.extend(patch.in_slots.iter().copied());
         self.write_slots.extend(patch.out_slots.iter().copied());
+        self.write_slots.extend(patch.cascade_cleared_slots());
     }
 
     /// Returns the number of unique slots in the closed footprint.
